@@ -810,11 +810,43 @@ def run_churn(ctx, batch, n, do_model=True):
         if [v for v in ctx.violations if v["key"] != F4_KEY]: return
 
 
+def caller_owned_results(ctx):
+    """everything the public element-level API hands out belongs to the caller: the token lists returned by every coordinate tokenizer for
+    every cell, by adjacency / path / whole-sequence tokenizers for a small maze, are edited in place here (insert, append, clear), BEFORE
+    the checks of this run tokenize anything. A result that is also the library's own memo would poison every later tokenization."""
+    cts, ats, pts, _ = space(ctx)
+    n_edit = 0
+    for ct in cts:
+        for r in range(12):
+            for c in range(12):
+                for coord in (np.array([r, c]), (r, c)):
+                    try:
+                        out = ct.to_tokens(coord)
+                    except Exception:
+                        continue
+                    if isinstance(out, list):
+                        out.insert(0, "<ORIGIN_START>"); out.append("<ORIGIN_END>"); n_edit += 1
+    m = corridor(3)
+    for ct in cts[:3]:
+        for at in ats[::40]:
+            try:
+                out = at.to_tokens(m, coord_tokenizer=ct)
+                if isinstance(out, list): out.clear(); n_edit += 1
+            except Exception: pass
+        for pt in pts[::100]:
+            try:
+                out = pt.to_tokens(m, coord_tokenizer=ct)
+                if isinstance(out, list): out.reverse(); out.append("<PATH_END>"); n_edit += 1
+            except Exception: pass
+    ctx.count("caller_edited_results", n_edit)
+
+
 def run(ctx):
     warnings.filterwarnings("ignore")
     seed_all(ctx)
     batch = Batch(ctx)
     check_vocab(ctx)
+    caller_owned_results(ctx)
     run_churn(ctx, batch, 40 if ctx.quick else 600)
     if ctx.quick:
         run_sweeps(ctx, batch, 2, 3, 5)
